@@ -92,6 +92,8 @@ def run(ctx):
         okb = True
         for v in [0x01020304, 0xfffefdfc, 0x80000001, 0x00000000, 0x12345678]:
             got = [eval_fn(gnb, [v, n]) for n in range(4)]
+            if all(x is None for x in got):
+                continue            # not a region the concrete evaluator models (library byte conversions): the bit provenance below decides alone
             if got != list(v.to_bytes(4, 'big')):
                 okb = False
         # ... and for every value: bit provenance of the returned byte for nth = 0..3
@@ -195,15 +197,29 @@ def run(ctx):
                         e = peel(pm.through_refs(inner[1][0], bi), casts=True)
                     else:
                         break
-                if isinstance(e, tuple) and e[0] == 'bin' and e[1] in ('Shr', 'Rem', 'BitAnd'):
+                if isinstance(e, tuple) and e[0] == 'bin' and e[1] in ('Shr', 'Rem', 'BitAnd', 'Div'):
                     e = peel(e[2], casts=True)
                 if ci_field(e, path):
                     return True
                 # a field of the Rpcb record being listed (records are checked to hold ip.dst / port.dst below)
                 return isinstance(e, tuple) and e[0] == 'field' and e[2] == {'ip': 'addr', 'port': 'port'}[path[0]] and calls_in(e[1], r'::next$') != [] and \
                     not any(isinstance(x, tuple) and x[0] == 'entry' for x in walk(e))
-            hi = isinstance(a1, tuple) and a1[0] == 'bin' and a1[1] == 'Shr' and const_val(a1[3]) == 8
-            lo = isinstance(a2, tuple) and a2[0] == 'bin' and ((a2[1] == 'Rem' and const_val(a2[3]) == 256) or (a2[1] == 'BitAnd' and const_val(a2[3]) == 0xff))
+            # the two halves of the 16-bit port, in any spelling (>> 8, / 256; % 256, & 0xff): decided on the bits
+            from vlib.bits import BitEval
+
+            def half(e, which):
+                inner = e[2] if isinstance(e, tuple) and e[0] == 'bin' else None
+                if inner is None:
+                    return False
+                src = peel(inner, casts=True)
+                bits = BitEval(lambda x: ('p', 16) if x == src or peel(x, casts=True) == src else None).bits(e)
+                if bits is None:
+                    return False
+                bits = (bits + [0] * 16)[:16]
+                want = [('in', 'p', k + (8 if which == 'hi' else 0)) for k in range(8)] + [0] * 8
+                return bits == want
+            hi = half(a1, 'hi')
+            lo = half(a2, 'lo')
             rep.check(r5, okv and hi and lo and from_dst(a0, ['ip', 'dst']) and from_dst(a1, ['port', 'dst']) and from_dst(a2, ['port', 'dst']),
                       'universal-address@%s' % pm.loc(bi).split(':')[-1] if False else 'universal-address#%d' % (len([1 for i_ in rep.rules[r5]['instances'] if i_['key'].startswith('universal-address')]) + 1),
                       'uaddr = %s.%s.%s for versions 3/4' % (short(a0)[:40], short(a1)[:40], short(a2)[:40]), pm.loc(bi))
@@ -367,6 +383,35 @@ def run(ctx):
                 isinstance(peel(hi[3], casts=True), tuple) and peel(hi[3], casts=True)[0] == 'bin' and peel(hi[3], casts=True)[1] == 'Rem' and const_val(peel(hi[3], casts=True)[3]) == 4
         g = ne_edges(psp, lambda a, b: isinstance(peel(a, casts=True), tuple) and peel(a, casts=True)[0] == 'bin' and peel(a, casts=True)[1] == 'Rem' and const_val(peel(a, casts=True)[3]) == 4 and const_val(b) == 0)
         okp = okp and bool(g) and not psp.must_pass(g, [it_[0][0]])
+        if not okp and isinstance(rg, tuple) and rg[0] == 'agg' and len(rg[2]) == 2 and const_val(rg[2][0]) == 0:
+            # any other spelling of the bound, unguarded: the expression mentions the length only under `% 4` / `& 3`, so it is a
+            # function of len mod 4 - evaluated for the four residues it must be (4 - r) % 4
+            hi0 = rg[2][1]
+            lens = [x for x in walk(hi0) if is_call(x, r'len$')]
+            def under_mod(e, inside=False):
+                e_ = peel(e, casts=True)
+                while is_call(e_, r'try_into$|unwrap$|Into::into$|From::from$|expect$') and e_[2]:
+                    e_ = peel(e_[2][0], casts=True)
+                if is_call(e_, r'len$'):
+                    return inside
+                if isinstance(e_, tuple) and e_[0] == 'bin':
+                    mod = (e_[1] == 'Rem' and const_val(e_[3]) == 4) or (e_[1] == 'BitAnd' and const_val(e_[3]) == 3)
+                    return under_mod(e_[2], inside or mod) and under_mod(e_[3], inside)
+                if isinstance(e_, tuple) and e_[0] == 'field' and e_[2] == '0':
+                    return under_mod(e_[1], inside)
+                if isinstance(e_, tuple) and e_[0] == 'const':
+                    return True
+                return False
+            if lens and under_mod(hi0):
+                try:
+                    vals_ = [eval_expr(hi0, lambda x, r_=r_: r_ if (is_call(x, r'len$') or (is_call(x, r'try_into$|unwrap$|expect$') and calls_in(x, r'len$') and not any(isinstance(y, tuple) and y[0] == 'bin' for y in walk(x)))) else None) for r_ in range(4)]
+                except Exception:
+                    vals_ = None
+                # the loop must not sit behind a guard that skips it for some residue with a non-zero pad
+                dom_ = psp.dominators().get(it_[0][0], set())
+                guarded = any(psp.blocks[b_]['term']['k'] == 'switch' for b_ in dom_ if b_ != it_[0][0] and it_[0][0] not in [s_ for s_ in psp.succ[b_]] and len(set(psp.succ[b_])) > 1 and
+                              not all(it_[0][0] in psp.reachable(s_) for s_ in set(psp.succ[b_]) if not psp.blocks[s_]['cleanup'] and psp.blocks[s_]['term']['k'] != 'unreachable'))
+                okp = vals_ == [0, 3, 2, 1] and not guarded
     rep.check(r4, okp or resize_form, 'pad-count', 'pad loop runs 0..(4 - len %% 4) and only when len %% 4 != 0 (or the resize form, which is 0 when aligned): %s' % (okp or resize_form))
 
     r6 = rep.rule('C16-R6', 'call parser: every 32-bit header field, including the credential/verifier lengths, is exactly the big-endian accumulation read_u32(self, byte, <same field>, next state) - no rounding or adjustment; the opaque-body counter only counts down by one per byte', floor=9)
@@ -417,6 +462,14 @@ def run(ctx):
             v = v[1]
         ok = isinstance(v, tuple) and v[0] == 'bin' and v[1] in ('Sub', 'SubWithOverflow') and const_val(v[3]) == 1 and 'data_len' in short(v[2])
     rep.check(r6, ok, 'read_string:countdown', 'data_len <- %s' % [short(x) for x in dl])
+    # the opaque body is left exactly when the counter reaches 0: the state store lies behind data_len == 0 (tested after the
+    # decrement) and is always reached from there
+    sw_ = [b_ for b_, _, _ in field_writes(rs, 'state')]
+    z_ = value_edges(rs, lambda k: 'data_len' in short(k) and isinstance(peel(k, casts=True), tuple) and peel(k, casts=True)[0] in ('entry', 'field', 'bin', 'phi'), 0)
+    dec_ = [b_ for b_, _, _ in field_writes(rs, 'data_len')]
+    okz = bool(sw_) and bool(z_) and not rs.must_pass(z_, sw_) and all(not any(x in rs.reachable(s__, removed_blocks=sw_) for x in rs.return_blocks()) for (_, s__) in z_) and \
+        bool(dec_) and all(not any(zb in rs.reachable(0, removed_blocks=dec_) for (zb, _) in z_) for _ in [0])
+    rep.check(r6, okz, 'read_string:leaves-at-zero', 'the state advances exactly when data_len, after the decrement, is 0: %s' % okz, rs.loc(sw_[0]) if sw_ else '')
     # read_u32 itself: value * 256 + byte, state advance at the 4th byte
     ru = F.fn(R + 'read_u32')
     rv = ru._through(ru.ret_value(ru.return_blocks()[0]), (ru.return_blocks()[0], 0), 0)
